@@ -1,6 +1,7 @@
 package gen
 
 import (
+	"math"
 	"strings"
 
 	"verif/harness/model"
@@ -254,6 +255,9 @@ func (r *Rng) Leaf(cx *CritCtx) *model.Crit {
 		c.Arg = r.operand(cx, f)
 	case model.OpIn:
 		n := r.Range(1, 4)
+		if r.P(12) {
+			n = r.Range(8, 12) // long lists (an implementation may switch to a lookup table)
+		}
 		for i := 0; i < n; i++ {
 			c.Args = append(c.Args, r.operand(cx, f))
 		}
@@ -391,6 +395,9 @@ func (r *Rng) windowVal(n int) int {
 	case 4:
 		return n + 3
 	case 5:
+		if r.P(20) {
+			return math.MaxInt - r.Intn(3) // "no limit" idioms
+		}
 		if n > 1 {
 			return n - 1
 		}
